@@ -324,6 +324,9 @@ pub struct Cfg {
     pub bail_out_handlers: u16,
     /// Fail (return Err) in the k-th handler invocation (1-based), after logging.
     pub fail_at: Option<usize>,
+    /// Extra content every bail-out handler appends before its marker: (content, as Html).
+    #[serde(default)]
+    pub bail_out_payload: Option<(String, bool)>,
 }
 
 impl Default for Cfg {
@@ -339,6 +342,7 @@ impl Default for Cfg {
             graceful_handler: false,
             bail_out_handlers: 0,
             fail_at: None,
+            bail_out_payload: None,
         }
     }
 }
@@ -859,9 +863,13 @@ macro_rules! make_builder {
             }
             for i in 0..cfg.bail_out_handlers {
                 let sh = shared.clone();
+                let payload = cfg.bail_out_payload.clone();
                 settings = settings.append_bail_out_handler(
                     move |e: &RewritingError, b: &mut lol_html::html_content::BailOut<'_>| {
                         push(&sh, Ev::BailOut { idx: i, err: err_code(e) });
+                        if let Some((c, h)) = &payload {
+                            b.append(c, ct(*h));
+                        }
                         b.append(&format!("\x01B{i}\x02"), ContentType::Html);
                     },
                 );
